@@ -78,6 +78,14 @@ func c06Run(j *orch.Job, r *orch.Result) error {
 			e.V20Dev, e.SprSig = forge.Far, forge.Far
 			e.V202, e.OneWaySmall, e.V204, e.V204Burn, e.PIP10 = forge.Far, forge.Far, forge.Far, forge.Far, forge.Far
 		}
+	case "bankpre":
+		// the per-height bank of [ConversionLimit, V4): conversions into PEG wait in holding and are paid in a
+		// second pass per held height
+		T = e.ConversionLimit + 3
+		e.V4, e.RCDE = T+20, T+20
+		e.V20 = T + 40
+		e.V20Dev, e.SprSig = forge.Far, forge.Far
+		e.V202, e.OneWaySmall, e.V204, e.V204Burn, e.PIP10 = forge.Far, forge.Far, forge.Far, forge.Far, forge.Far
 	case "v20":
 		T = e.V20 + 4
 		for (T+14)/144 != T/144 { // keep clear of snapshot heights
@@ -125,6 +133,9 @@ func c06Run(j *orch.Job, r *orch.Result) error {
 	}
 	F := uint64(100 * 1e8)
 	dst := fat2.PTickerEUR
+	if p.Era == "bankpre" {
+		dst = fat2.PTickerPEG
+	}
 	add(&c06Case{Name: "T-same-block-x2", Kind: "transfer", Fund: F, Amount: 30 * 1e8, At: []uint32{T}, Times: []int{2}, MustExecute: true, Metamorphic: true})
 	add(&c06Case{Name: "T-same-block-x3", Kind: "transfer", Fund: F, Amount: 30 * 1e8, At: []uint32{T}, Times: []int{3}, MustExecute: true, Metamorphic: true})
 	add(&c06Case{Name: "T-next-block", Kind: "transfer", Fund: F, Amount: 40 * 1e8, At: []uint32{T, T + 1}, Times: []int{1, 1}, MustExecute: true, Metamorphic: true})
@@ -274,8 +285,23 @@ func c06Run(j *orch.Job, r *orch.Result) error {
 			times = 0
 		case src == funded-c.Amount && (c.Kind == "conversion" && got > 0 || c.Kind == "transfer" && got == c.Amount):
 			times = 1
+		case c.Kind == "conversion" && c.Conv == fat2.PTickerPEG && p.Era == "bankpre" && got > 0 && src < funded && src > funded-c.Amount:
+			// a request against the PEG bank may be filled in part: the unfilled part of the input comes back.
+			// Exactly-once is then decided on the PEG side (credited amount == the one recorded execution, below)
+			times = 1
 		}
 		cd["effects"] = times
+		if times == 1 && c.Kind == "conversion" {
+			// considered exactly once: what the destination holds is what the history records for the one execution
+			var rec int64
+			n.RO.QueryRow("SELECT COALESCE(SUM(to_amount),0) FROM pn_history_transaction WHERE entry_hash = ?", c.entry.Hash[:]).Scan(&rec)
+			cd["recorded_to_amount"] = rec
+			r.Count("converted_amounts_compared", 1)
+			if uint64(rec) != got {
+				times = -1
+				cd["effects"] = "credited amount differs from the single recorded execution"
+			}
+		}
 		if times < 0 {
 			r.Violate("C06", fmt.Sprintf("multiple-execution case=%s", c.Name),
 				fmt.Sprintf("entry written %d times took effect more than once or partially: sender holds %d of %d funded, recipient/destination holds %d (amount %d)", copies, src, funded, got, c.Amount), cd)
@@ -349,7 +375,7 @@ func checkC06(c *Ctx) *orch.Outcome {
 		"every repeat of an entry hash must be inert, also after a rejection (the property's observation point is: ledger with duplicates == ledger with first occurrences only)",
 		"compressed eras; window 12",
 	}
-	eras := []string{"early", "bank", "v20", "pip10"}
+	eras := []string{"early", "bankpre", "bank", "v20", "pip10"}
 	n := 3
 	if c.Thorough() {
 		n = 10
@@ -374,6 +400,7 @@ func checkC06(c *Ctx) *orch.Outcome {
 	o.Extra["copies_written"] = orch.SumCounter(rs, "copies_written")
 	o.Extra["entries_executed_exactly_once"] = orch.SumCounter(rs, "executed_once")
 	o.Extra["metamorphic_pairs"] = orch.SumCounter(rs, "metamorphic_pairs")
+	o.Extra["converted_amounts_compared"] = orch.SumCounter(rs, "converted_amounts_compared")
 	o.Extra["placements"] = orch.UnionDistinct(rs, "placements")
 	o.MinNontrivial = 30
 	return o
